@@ -150,6 +150,16 @@ def run(ck, F, E):
                            "Tokenizer.index is advanced in %s by a quantity of unknown provenance (%s): the cursor may "
                            "leave a char boundary or run past the token, so reported ranges are no longer exact"
                            % (body.path, show(adv)), sp)
+                # a matcher must stop right behind a byte the cruncher handed out (a non-blank one); LineCruncher::pos()
+                # also counts blanks it skipped without finding another byte, so only the blank skipper may use it
+                fnname = body.path.split("::")[-1]
+                ck.require(not (desc and "cruncher pos()" in desc) or fnname == "chomp_leading_whitespace",
+                           "C13:END:%s#%d" % (fnname, k), "tokens end on a non-blank",
+                           "the advance is the position of a returned (non-blank) byte" if fnname != "chomp_leading_whitespace"
+                           else "only the blank skipper advances by LineCruncher::pos()",
+                           "Tokenizer::%s advances the cursor by LineCruncher::pos(), which includes blanks skipped after the last "
+                           "byte of the token: the token's reported range ends on a blank (e.g. an identifier at the end of a line "
+                           "with trailing blanks)" % fnname, sp, nontrivial=False)
                 ck.ok(key, "monotone cursor", "index += (unsigned)", "", sp, nontrivial=False)
                 continue
             # restore of a saved copy: `index = copy _saved` where every def of _saved copies index, earlier
